@@ -279,3 +279,8 @@ mod tests {
         }
     }
 }
+
+#[cfg(kani)]
+mod verif_kani {
+    include!(concat!(env!("IPA_VERIF_DIR"), "/kani/query_state.rs"));
+}
